@@ -55,7 +55,8 @@ def safe_cmyk(
 def safe_rect_list(value: Any) -> Optional[Rect]:
     try:
         values = list(itertools.islice(value, 4))
-    except TypeError:
+    except (TypeError, KeyError):
+        # not iterable; a PDFStream "iterates" through __getitem__(0)
         return None
 
     if len(values) != 4:
